@@ -321,11 +321,11 @@ func c08Accept(c *ctx, pr *Protocol) {
 
 // secret-bearing payload types (fixed by type, each with the reason)
 var secretPayload = map[string]string{
-	"crypto/vss.Share":            "the recipient's Shamir share",
-	"crypto/mta.RangeProofAlice":  "MtA ciphertext proof bound to the recipient's ring-Pedersen parameters",
-	"crypto/mta.ProofBob":         "MtA response proof for one recipient",
-	"crypto/mta.ProofBobWC":       "MtA response proof for one recipient",
-	"crypto/facproof.ProofFac":    "factorisation proof bound to the recipient's ring-Pedersen parameters",
+	"crypto/vss.Share":           "the recipient's Shamir share",
+	"crypto/mta.RangeProofAlice": "MtA ciphertext proof bound to the recipient's ring-Pedersen parameters",
+	"crypto/mta.ProofBob":        "MtA response proof for one recipient",
+	"crypto/mta.ProofBobWC":      "MtA response proof for one recipient",
+	"crypto/facproof.ProofFac":   "factorisation proof bound to the recipient's ring-Pedersen parameters",
 }
 
 func c08Secrets(c *ctx, pr *Protocol) {
